@@ -2199,6 +2199,17 @@ void SoPlexBase<R>::addColRational(const mpq_t* obj, const mpq_t* lower, const m
                                           SoPlexBase<R>::OBJSENSE_MAXIMIZE ? 1.0 : -1.0),
                   R(lowerRational(i)), DSVectorBase<R>(_rationalLP->colVector(i)), R(upperRational(i)));
 
+   // a coefficient that underflows to 0.0 does not create its row in the real LP: keep the dimensions equal
+   if(intParam(SoPlexBase<R>::SYNCMODE) == SYNCMODE_AUTO && numRows() < numRowsRational())
+   {
+      LPRowSetBase<R> pad;
+
+      for(int k = numRows(); k < numRowsRational(); k++)
+         pad.add(LPRowBase<R>());
+
+      _addRowsReal(pad);
+   }
+
    _invalidateSolution();
 }
 
@@ -2803,6 +2814,17 @@ void SoPlexBase<R>::addRowRational(const LPRowRational& lprow)
    if(intParam(SoPlexBase<R>::SYNCMODE) == SYNCMODE_AUTO)
       _addRowReal(lprow);
 
+   // a coefficient that underflows to 0.0 does not create its column in the real LP: keep the dimensions equal
+   if(intParam(SoPlexBase<R>::SYNCMODE) == SYNCMODE_AUTO && numCols() < numColsRational())
+   {
+      LPColSetBase<R> pad;
+
+      for(int k = numCols(); k < numColsRational(); k++)
+         pad.add(LPColBase<R>());
+
+      _addColsReal(pad);
+   }
+
    _invalidateSolution();
 }
 
@@ -2826,6 +2848,17 @@ void SoPlexBase<R>::addRowRational(const mpq_t* lhs, const mpq_t* rowValues, con
 
    if(intParam(SoPlexBase<R>::SYNCMODE) == SYNCMODE_AUTO)
       _addRowReal(R(lhsRational(i)), DSVectorBase<R>(_rationalLP->rowVector(i)), R(rhsRational(i)));
+
+   // a coefficient that underflows to 0.0 does not create its column in the real LP: keep the dimensions equal
+   if(intParam(SoPlexBase<R>::SYNCMODE) == SYNCMODE_AUTO && numCols() < numColsRational())
+   {
+      LPColSetBase<R> pad;
+
+      for(int k = numCols(); k < numColsRational(); k++)
+         pad.add(LPColBase<R>());
+
+      _addColsReal(pad);
+   }
 
    _invalidateSolution();
 }
@@ -2877,6 +2910,17 @@ void SoPlexBase<R>::addRowsRational(const LPRowSetRational& lprowset)
    if(intParam(SoPlexBase<R>::SYNCMODE) == SYNCMODE_AUTO)
       _addRowsReal(lprowset);
 
+   // a coefficient that underflows to 0.0 does not create its column in the real LP: keep the dimensions equal
+   if(intParam(SoPlexBase<R>::SYNCMODE) == SYNCMODE_AUTO && numCols() < numColsRational())
+   {
+      LPColSetBase<R> pad;
+
+      for(int k = numCols(); k < numColsRational(); k++)
+         pad.add(LPColBase<R>());
+
+      _addColsReal(pad);
+   }
+
    _invalidateSolution();
 }
 
@@ -2895,6 +2939,17 @@ void SoPlexBase<R>::addColRational(const LPColRational& lpcol)
 
    if(intParam(SoPlexBase<R>::SYNCMODE) == SYNCMODE_AUTO)
       _addColReal(lpcol);
+
+   // a coefficient that underflows to 0.0 does not create its row in the real LP: keep the dimensions equal
+   if(intParam(SoPlexBase<R>::SYNCMODE) == SYNCMODE_AUTO && numRows() < numRowsRational())
+   {
+      LPRowSetBase<R> pad;
+
+      for(int k = numRows(); k < numRowsRational(); k++)
+         pad.add(LPRowBase<R>());
+
+      _addRowsReal(pad);
+   }
 
    _invalidateSolution();
 }
@@ -2917,6 +2972,17 @@ void SoPlexBase<R>::addColsRational(const LPColSetRational& lpcolset)
 
    if(intParam(SoPlexBase<R>::SYNCMODE) == SYNCMODE_AUTO)
       _addColsReal(lpcolset);
+
+   // a coefficient that underflows to 0.0 does not create its row in the real LP: keep the dimensions equal
+   if(intParam(SoPlexBase<R>::SYNCMODE) == SYNCMODE_AUTO && numRows() < numRowsRational())
+   {
+      LPRowSetBase<R> pad;
+
+      for(int k = numRows(); k < numRowsRational(); k++)
+         pad.add(LPRowBase<R>());
+
+      _addRowsReal(pad);
+   }
 
    _invalidateSolution();
 }
